@@ -89,6 +89,8 @@ def seed_list(tier):
         # a file on disk whose VAR-LIST lost its trailing blanks (generic netCDF tools strip them): a set-up state
         {'kind': 'ioapi', 'setup': True,
          'rec': dict(ioapi_u.recipe(nt=2, nl=2, nr=2, nc=2, nv=3, start=0, kind='disk'), strip_varlist=True)},
+        # time flags that carry seconds (a 7.5-minute step starting at hh:mm:30)
+        {'kind': 'ioapi', 'rec': ioapi_u.recipe(nt=3, nl=1, nr=2, nc=2, nv=2, start=0, tstep=730)},
         {'kind': 'griddesc', 'withcf': False, 'nsteps': 2},
         {'kind': 'griddesc', 'withcf': True, 'nsteps': 1},
         # dates beyond 19 Jan 2038 (32-bit seconds since 1970) with and without CF time variables
